@@ -15,3 +15,9 @@ pub fn from_engine_any(e: sha256::HashEngine) -> sha256::Hash {
     let d: [u8; 32] = kani::any();
     sha256::Hash::from_byte_array(d)
 }
+
+/// `Midstate::to_engine` (a tagged engine's start state) contains an 8-iteration loop that would force a larger global
+/// unwind bound; under this model every engine starts fresh - the start state is irrelevant when digests are arbitrary.
+pub fn to_engine_fresh(_m: sha256::Midstate) -> sha256::HashEngine {
+    sha256::HashEngine::new()
+}
